@@ -37,7 +37,7 @@ ASSUMPTIONS = ["Pygments' file-name to lexer mapping is the trusted base for 'ma
                "exclusion patterns are drawn from five unambiguous gitignore classes (bare name, dir/, *.ext, anchored a/b, a/*) "
                "whose semantics were taken from the gitignore manual, not from pathspec"]
 BOUNDS = {"quick": dict(n=32, trees=3200, cli=1), "thorough": dict(n=64, trees=40000, cli=5)}
-MINIMUM = {"quick": {"monitor.scan_path_compared": 3000, "monitor.files_judged": 25000, "monitor.open_audit_events": 10000, "monitor.cli_scans": 20},
+MINIMUM = {"quick": {"monitor.scan_path_compared": 3000, "monitor.files_judged": 25000, "monitor.open_audit_events": 10000, "monitor.cli_scans": 20, "monitor.cached_rescans_compared": 800},
            "thorough": {"monitor.scan_path_compared": 30000, "monitor.files_judged": 300000, "monitor.open_audit_events": 50000, "monitor.cli_scans": 200}}
 PY = "/venv/bin/python"
 _AUDIT = {"on": False, "opened": []}
@@ -179,6 +179,11 @@ def one_tree(ctx, rng, seed):
                     ctx.violation("non_qualifying_file_was_read", case, {"path": os.path.relpath(ap, real_root), "exclusions": exclusions})
                     break
         ctx.count("monitor.open_audit_events", seen_under_root)
+        # a cache left by an EARLIER state of the tree must not influence which files contribute, nor their language: in the earlier
+        # state some files had the twin extension of another language (app.js <-> app.ts, util.c <-> util.cpp, x.h <-> x.hpp) with
+        # the same bytes, some were elsewhere, some had other content
+        if channel in ("configuration", "gitignore") and exp:
+            cached_rescan(ctx, rng, files, exclusions, channel, root_arg, cwd, real_root, exp, case)
         # metamorphic: adding non-qualifying files must not change anything
         extra = {}
         for i in range(rng.randint(1, 4)):
@@ -250,6 +255,58 @@ def channel_equivalence(ctx, rng):
         ctx.distinct(["eq", sorted(files), exclusions])
     finally:
         shutil.rmtree(base, ignore_errors=True)
+
+
+TWIN_EXT = {".js": ".ts", ".ts": ".js", ".c": ".cpp", ".cpp": ".c", ".h": ".hpp", ".hpp": ".h", ".cc": ".c", ".mjs": ".ts", ".py": ".pyw", ".cs": ".java", ".java": ".cs"}
+
+
+def cached_rescan(ctx, rng, files, exclusions, channel, root_arg, cwd, real_root, exp, case):
+    from codelimit.common import Scanner
+    from codelimit.common.Configuration import Configuration
+    from codelimit.common.report.Report import Report
+
+    old = os.path.realpath(tempfile.mkdtemp(prefix="vf-c11-old-"))
+    try:
+        earlier = {}
+        for rel, data in files.items():
+            base, ext = os.path.splitext(rel)
+            k = rng.random()
+            if ext in TWIN_EXT and k < 0.5:
+                earlier[base + TWIN_EXT[ext]] = data            # same bytes, name of the other language
+            elif k < 0.6:
+                earlier["moved_" + rel.replace("/", "_")] = data  # same bytes, elsewhere
+            elif k < 0.7:
+                earlier[rel] = data + b"\n"                     # same path, other content
+            else:
+                earlier[rel] = data
+        earlier = {k: v for k, v in earlier.items() if not any(o != k and (o.startswith(k + "/") or k.startswith(o + "/")) for o in earlier)}
+        TG.materialise(old, earlier)
+        Configuration.exclude = list(exclusions) if channel == "configuration" else []
+        if channel == "gitignore":
+            with open(os.path.join(old, ".gitignore"), "w") as f:
+                f.write("\n".join(exclusions) + ("\n" if exclusions else ""))
+        cb_old = Scanner.scan_path(Path(old))
+        cb_old.aggregate()
+        cached = Report(cb_old)
+        prev = os.getcwd()
+        os.chdir(cwd)
+        try:
+            Configuration.exclude = list(exclusions) if channel == "configuration" else []
+            cb = Scanner.scan_path(Path(root_arg), cached)
+        finally:
+            os.chdir(prev)
+            Configuration.exclude = []
+        ctx.eval()
+        ctx.count("monitor.cached_rescans_compared")
+        got = {k: (e.language, e.checksum()) for k, e in cb.files.items()}
+        if got != exp:
+            wrong = {k: [exp.get(k), got.get(k)] for k in set(exp) | set(got) if exp.get(k) != got.get(k)}
+            ctx.violation("selection_with_cache", dict(case, cached=True),
+                          {"differences (expected, observed)": dict(list(wrong.items())[:5]), "earlier_tree": sorted(earlier)[:12]})
+    except Exception as e:
+        ctx.violation("scan_exception", dict(case, cached=True), {"error": f"{type(e).__name__}: {e}", "tb": short_tb(5)})
+    finally:
+        shutil.rmtree(old, ignore_errors=True)
 
 
 def cli_case(ctx, rng):
